@@ -115,8 +115,10 @@ func dischargeOne(i int, o *Obligation, opts SolveOpts) *Outcome {
 	}
 	res.File = file
 	timeout := opts.TimeoutMs
+	use := solvers
 	if o.MustFail {
-		timeout = 2000
+		timeout = 1000
+		use = solvers[:2]
 	}
 	start := time.Now()
 	ctx, cancel := context.WithCancel(context.Background())
@@ -124,8 +126,8 @@ func dischargeOne(i int, o *Obligation, opts SolveOpts) *Outcome {
 	type ans struct {
 		solver, answer, out string
 	}
-	ch := make(chan ans, len(solvers))
-	for _, s := range solvers {
+	ch := make(chan ans, len(use))
+	for _, s := range use {
 		go func(s solverSpec) {
 			a, out := runSolver(ctx, s, file, timeout)
 			ch <- ans{s.name, a, out}
@@ -134,7 +136,7 @@ func dischargeOne(i int, o *Obligation, opts SolveOpts) *Outcome {
 	unsatCount := 0
 	var satAns *ans
 	done := 0
-	for done < len(solvers) {
+	for done < len(use) {
 		a := <-ch
 		done++
 		res.Per[a.solver] = a.answer
